@@ -118,7 +118,28 @@ func c10(r *hx.Run) {
 	})
 	// verify.SupportedTcbLevelsFromCollateral on the state an earlier verification left in the options: the message it is
 	// given is as untrusted as any other (absent sub-messages, byte fields of every length, typed nil, other types)
+	// … also when the (genuinely signed) TCB Info lists levels with fewer TDX / SGX components than a platform has, or none
+	lvBases := []*world.World{base}
+	for _, raw := range [][]int{{}, {3}, {3, 0}, {1, 2, 3, 4, 5, 6, 7, 8, 9, 10, 11, 12, 13, 14, 15}} {
+		for _, which := range []string{"tdx", "sgx"} {
+			s := honestSpec(rng)
+			s.GC, s.CR = true, true
+			for i := range s.Tcb.Levels {
+				if which == "tdx" {
+					s.Tcb.Levels[i].TdxRaw = raw
+				} else {
+					s.Tcb.Levels[i].SgxRaw = raw
+				}
+			}
+			s.Fault = fmt.Sprintf("levels-with-%d-%s-components", len(raw), which)
+			lvBases = append(lvBases, world.Build(s))
+		}
+	}
+	for bi, base := range lvBases {
 	for _, gcFirst := range []bool{true, false} {
+		if bi > 0 && !gcFirst {
+			continue
+		}
 		filled := func() *verify.Options {
 			o := &verify.Options{GetCollateral: gcFirst, CheckRevocations: gcFirst, Getter: &world.Getter{M: base.Getter.M}, TrustedRoots: base.Pool()}
 			if n := base.Spec.Now; n != nil {
@@ -132,18 +153,19 @@ func c10(r *hx.Run) {
 				return
 			}
 			o := filled()
-			crashCase("verify.SupportedTcbLevelsFromCollateral-after-verify", fmt.Sprintf("collateral=%v struct=%s", gcFirst, name), func() string {
+			crashCase("verify.SupportedTcbLevelsFromCollateral-after-verify", fmt.Sprintf("base=%d collateral=%v struct=%s", bi, gcFirst, name), func() string {
 				_, _, err := verify.SupportedTcbLevelsFromCollateral(q, o)
 				return errStr(err)
 			})
 		})
 		for _, a := range []any{nil, (*pb.QuoteV4)(nil), &pb.QuoteV4{}, "x", &pb.Header{}} {
 			a, o := a, filled()
-			crashCase("verify.SupportedTcbLevelsFromCollateral-after-verify", fmt.Sprintf("collateral=%v arg=%T", gcFirst, a), func() string {
+			crashCase("verify.SupportedTcbLevelsFromCollateral-after-verify", fmt.Sprintf("base=%d collateral=%v arg=%T", bi, gcFirst, a), func() string {
 				_, _, err := verify.SupportedTcbLevelsFromCollateral(a, o)
 				return errStr(err)
 			})
 		}
+	}
 	}
 	// arbitrary chain bytes
 	chainOf := func(q *pb.QuoteV4, chain []byte) *pb.QuoteV4 {
